@@ -335,7 +335,10 @@ def cli_case(draw, tier):
          'fname': draw(st.sampled_from([None, None, 'PEL%20copy_50000001.bin', '100%_50000001.pel',
                                         'dump%d_50000001.pel', 'a{b}_50000001.pel', '{0}_50000001', 'sp ace_50000001.pel',
                                         '%s%s%s_50000001', 'q\'uote"_50000001', '\u00fcn\u00ef_50000001.pel'])),
-         'skip_plugins': draw(st.integers(0, 3)) == 0}
+         'skip_plugins': draw(st.integers(0, 3)) == 0,
+         # the same barrier in the directory modes: the damaged file next to 0-3 further damaged copies
+         'dirmode': draw(st.sampled_from([None, None, None, '-a', '-j', '-l', '-n'])),
+         'copies': draw(st.integers(0, 3))}
     if kind == 'random':
         c['data'] = draw(random_bytes)
     elif kind == 'exotic':
@@ -351,7 +354,7 @@ def cli_case(draw, tier):
     return c
 
 
-def check_cli_result(r, what, must_reject, hexmode, data):
+def check_cli_result(r, what, must_reject, hexmode, data, single_file=True):
     if r.status == 'timeout':
         raise Violation('C05.hang', '%s did not terminate; input %s' % (what, data.hex()[:400]), sig='C05.cli.hang')
     if r.status not in (0, 1):
@@ -377,7 +380,7 @@ def check_cli_result(r, what, must_reject, hexmode, data):
                 raise Violation('C05.cli-stdout', '%s printed on stdout something that is not a JSON document: %r; '
                                 'stderr %r; input %s' % (what, out[:300], r.err[:200], data.hex()[:400]),
                                 sig='C05.cli.stdout-not-json')
-    if r.status == 1 and out.strip():
+    if single_file and r.status == 1 and out.strip():
         raise Violation('C05.cli-stdout', '%s failed with status 1 but printed %r' % (what, out[:200]),
                         sig='C05.cli.stdout-on-failure')
 
@@ -397,6 +400,17 @@ def cli_check(case, note):
             f.write(data)
         # the same single-file barrier serves --file and --id
         argv = (['-p', d, '-i', '50000001'] if case.get('by_id') else ['-f', path]) + (['-x'] if case['hex'] else [])
+        dirmode = case.get('dirmode')
+        if dirmode:
+            # directory modes: every malformed file is reported and skipped, the exit status stays 0 or 1
+            for k in range(case.get('copies', 0)):
+                with open(os.path.join(d, 'copy%d_5000000%d' % (k, k + 2)), 'wb') as f:
+                    f.write(data[:max(len(data) - 1 - k, 0)] if k % 2 else data)
+            argv = ['-p', d, dirmode] + (['-x'] if case['hex'] and dirmode in ('-a', '-l') else [])
+            if dirmode == '-j':
+                argv += ['-o', os.path.join(d, 'out')]
+                os.mkdir(os.path.join(d, 'out'))
+            must_reject = False
         if case.get('skip_plugins'):
             argv.append('-P')
         if case['runner'] == 'forked':
@@ -405,8 +419,10 @@ def cli_check(case, note):
         else:
             r = cli.real(argv, optimize=(case['runner'] == 'real-O'), timeout=60)
             what = 'python %speltool.py -f' % ('-O ' if case['runner'] == 'real-O' else '')
-        check_cli_result(r, what, must_reject, case['hex'], data)
-        note.label(case['kind'], case['runner'], 'status=%s' % r.status)
+        if dirmode:
+            what = what.replace(' -f', ' ' + dirmode) + ' (directory of %d damaged files)' % (1 + case.get('copies', 0))
+        check_cli_result(r, what, must_reject, '-x' in argv, data, single_file=not dirmode)
+        note.label(case['kind'], case['runner'], 'status=%s' % r.status, 'mode=%s' % (dirmode or 'single-file'))
         note.nontrivial = case['kind'] != 'intact'
     finally:
         shutil.rmtree(d, ignore_errors=True)
